@@ -95,8 +95,25 @@ def input_tags(record: Any) -> list[str]:
             seen[_parts(area.location)] = seen.get(_parts(area.location), 0) + 1
         if any(count > 1 for count in seen.values()):
             tags.add(f"{label}-tie")
+        # an area over the whole record next to one that continues over the origin: the first sorts before
+        # the second because it contains it, the second before the first because of its (negative) start
+        if any(_parts(a.location) == ((0, length),) for a in areas) and any(len(_parts(a.location)) > 1 for a in areas):
+            tags.add("whole-vs-origin")
     if any(isinstance(proto, SideloadedProtocluster) for proto in record.get_protoclusters()):
         tags.add("side-proto")
+    if not record.is_circular():
+        # on a linear record: would the candidate's cores / extents be connected differently if a wrap
+        # point were given? (what CandidateCluster.from_biopython does; connect_locations only describes
+        # the input here)
+        from antismash.common.secmet.locations import connect_locations
+        for cand in record.get_candidate_clusters():
+            for locations in ([p.core_location for p in cand.protoclusters], [p.location for p in cand.protoclusters]):
+                try:
+                    wrapped = _parts(connect_locations(list(locations), wrap_point=length))
+                except Exception:  # pylint: disable=broad-except
+                    wrapped = ()
+                if wrapped != _parts(connect_locations(list(locations))):
+                    tags.add("linear-core-wrap")
     if missing_links(record):
         tags.add("cds-link-miss")
     for area in _areas(record):
@@ -303,12 +320,12 @@ def _case(spec: dict, tags: list[str]) -> dict:
 # input features under which an aspect is known to fail on the pinned tree: such cases are counted under
 # their own clause name '<clause>@<tags>' so that they neither hide nor crowd out the others
 RELEVANT = {
-    "protoclusters": ["proto-tie", "side-proto"],
-    "candidates": ["proto-tie"],
-    "subregions": ["sub-tie"],
-    "regions": ["proto-tie", "sub-tie"],
-    "area-members": ["proto-tie", "sub-tie", "cds-link-miss", "cds-query-miss"],
-    "fixed-point-content": ["proto-tie", "sub-tie", "side-proto"],
+    "protoclusters": ["proto-tie", "whole-vs-origin", "side-proto"],
+    "candidates": ["proto-tie", "cand-tie", "whole-vs-origin", "linear-core-wrap"],
+    "subregions": ["sub-tie", "whole-vs-origin"],
+    "regions": ["proto-tie", "cand-tie", "sub-tie", "whole-vs-origin"],
+    "area-members": ["proto-tie", "cand-tie", "sub-tie", "whole-vs-origin", "cds-link-miss", "cds-query-miss"],
+    "fixed-point-content": ["proto-tie", "cand-tie", "sub-tie", "whole-vs-origin", "side-proto"],
     "fixed-point-order": ["prepeptide-rev", "prepeptide-origin", "prepeptide-partial"],
     "CDS-gene-functions": ["gf-colon"],
     "CDS": ["note-dup"],
@@ -377,7 +394,7 @@ AREAS = ("protoclusters", "candidates", "subregions", "regions", "area-members",
 
 FINDING_CLASSES: dict[str, Any] = {
     # areas with identical coordinates tie in CDSCollection.__lt__: bisect_left reverses them on reload
-    "C10-F1": lambda clause, case: _known(clause, case, AREAS, ("proto-tie",)),
+    "C10-F1": lambda clause, case: _known(clause, case, AREAS, ("proto-tie", "cand-tie")),
     "C10-F2": lambda clause, case: _known(clause, case, AREAS, ("sub-tie",)),
     # gene function text '<function> (<tool>) <id>: <description>' is parsed as product '<id>'
     "C10-F3": lambda clause, case: _known(clause, case, ("CDS-gene-functions",), ("gf-colon",)),
@@ -392,4 +409,8 @@ FINDING_CLASSES: dict[str, Any] = {
     "C10-F8": lambda clause, case: _known(clause, case, ("area-members",), ("cds-link-miss", "cds-query-miss")),
     # SideloadedProtocluster.from_biopython leaves category/core_location/... in the generic qualifiers
     "C10-F9": lambda clause, case: _known(clause, case, ("protoclusters", "fixed-point-content"), ("side-proto",)),
+    # CDSCollection.__lt__ orders a whole-record area and an origin-spanning area both ways round
+    "C10-F10": lambda clause, case: _known(clause, case, AREAS, ("whole-vs-origin",)),
+    # CandidateCluster.from_biopython connects locations with wrap_point=len(record) on linear records too
+    "C10-F11": lambda clause, case: _known(clause, case, ("candidates",), ("linear-core-wrap",)),
 }
